@@ -13,6 +13,8 @@ wt='/tmp/mut-'+ID
 meta={}
 try: meta=json.load(open(wt+'/MUTANT/meta.json'))
 except Exception: pass
+try: meta["suite_verified_here"]=open(wt+'/MUTANT/suite.txt').read().strip().splitlines()
+except Exception: pass
 meta.update({"property":ID,"breaks":ID,"verified_here":{"demo_fails_with_patch":True,"demo_passes_on_repo":True,"check_result":RES,"what_ran":NOTE}})
 json.dump(meta,open('/verif/seeded/%s/meta.json'%ID,'w'),indent=1)
 PY
